@@ -36,7 +36,12 @@ BufferOk(e) ==
     /\ \A i \in 1..Len(e.chord2K), j \in 1..Len(e.chord2K) : AbsI(e.chord2K[i] - e.chord2K[j]) <= 2     \* equal sides
     /\ \A i \in 1..Len(e.turns) : e.turns[i] = 1                                    \* counter-clockwise, convex
     /\ cs.n * cs.n * e.chord2K[1] <= 40 * r2K                                       \* perimeter < 2 pi r: winds once
-Ok(e) == CASE cs.kind = "shape" -> ShapeOk(e) [] cs.kind = "line" -> LineOk(e) [] cs.kind = "buffer" -> BufferOk(e) [] OTHER -> FALSE
+(* Distance to a long segment from a point very close to it: the error of the real answer, measured by the harness against
+   the exact squared distance of the case (recomputed here), stays below 1e-10 of the coordinate size *)
+NearOk(e) == /\ e.ev = "near" /\ e.out = "ok"
+             /\ cs.d2 = Dist2PointSeg(cs.q, cs.path[1], cs.path[2])
+             /\ e.errscale12 <= 100 /\ e.mlerrscale12 <= 100
+Ok(e) == CASE cs.kind = "shape" -> ShapeOk(e) [] cs.kind = "near" -> NearOk(e) [] cs.kind = "line" -> LineOk(e) [] cs.kind = "buffer" -> BufferOk(e) [] OTHER -> FALSE
 Apply(e) == UNCHANGED cs
 Reset(e) == cs' = e
 Keep == UNCHANGED cs
